@@ -374,14 +374,15 @@ fn fault_sweep<R: Row>(rec: &mut Recorder, env: &vlib::Env, cfg_no: usize, n: us
         by_family.entry((fam, c.key.src)).or_default().push(c);
     }
     // message faults
-    let per_family = env.pick(1, 6);
+    // sparse worlds (fewer rows than shards) have few, tiny chunks: fault every one of them several times
+    let per_family = if n < shards { env.pick(8, 24) } else { env.pick(1, 6) };
     for ((fam, src), chunks) in &by_family {
         for k in 0..per_family.min(chunks.len() * 3) {
             *idx += 1;
             if !env.mine(*idx) {
                 continue;
             }
-            let c = chunks[(r.below(chunks.len() as u64)) as usize];
+            let c = if n < shards { chunks[k % chunks.len()] } else { chunks[(r.below(chunks.len() as u64)) as usize] };
             let pattern = match (k + *idx) % 4 {
                 0 => Pattern::FlipBit { byte: r.below(c.len.max(1) as u64) as usize, bit: r.below(8) as u8 },
                 1 => Pattern::FlipLastBit,
@@ -464,6 +465,9 @@ fn verif_c05_faults() {
     let mut idx = 0usize;
     fault_sweep::<AdditiveShare<BA64>>(&mut rec, &env, 0, 9, 1, &mut idx);
     fault_sweep::<IndistinguishableHybridReport<BA8, BA3>>(&mut rec, &env, 1, 12, 2, &mut idx);
+    // fewer rows than shards: some shards forward rows but end up with none (or receive none at all)
+    fault_sweep::<AdditiveShare<BA32>>(&mut rec, &env, 5, 3, 5, &mut idx);
+    fault_sweep::<AdditiveShare<BA32>>(&mut rec, &env, 6, 2, 3, &mut idx);
     if env.thorough {
         fault_sweep::<AdditiveShare<BA32>>(&mut rec, &env, 2, 33, 3, &mut idx);
         fault_sweep::<AggregateableHybridReport<BA8, BA3>>(&mut rec, &env, 3, 20, 1, &mut idx);
